@@ -66,8 +66,9 @@ def cases(draw, tier):
             "explicit_mean": draw(st.booleans()),
             "strided": draw(st.booleans()),
             "scalar_param": draw(st.booleans()),
+            "swapped": draw(st.integers(0, 4)) == 0,
             "pcont": draw(st.sampled_from(["array", "array", "list", "tuple",
-                                           "column", "reversed"])),
+                                           "column", "reversed", "swapped"])),
             "badlen": draw(st.sampled_from([0, 0, 1, 2, 3, 5])),
             "bad": draw(st.sampled_from(["order0", "order11", "nanparam",
                                          "nanmean", "nanini",
@@ -147,6 +148,8 @@ def oracle(case):
             params = phi[::-1].copy()[::-1]
         elif pc == "series":
             params = pd.Series(phi)
+        elif pc == "swapped":
+            params = phi.astype(phi.dtype.newbyteorder())
         labels.append(f"coefficients:{pc}")
 
     def arr(x):
@@ -154,6 +157,10 @@ def oracle(case):
             big = np.zeros(2 * len(x))
             big[::2] = x
             return big[::2]
+        if case.get("swapped"):
+            # float64 values stored in the other byte order (read from a
+            # binary file written on another platform)
+            return x.astype(x.dtype.newbyteorder())
         return x.copy()
 
     kw = {"sim_mean": m}
